@@ -165,7 +165,7 @@ T_SrvOpen ==
 
 \* known shapes of "a cancel of somebody else failed this subscriber" are reported, not fatal
 Observe ==
-  \A s \in Subs : sub[s].blame \in Foreign => PrintT(<<"FINDING", tid, sub[s].blame, s>>)
+  \A s \in Subs : sub[s].blame \in Foreign \cup {"spurious_ping"} => PrintT(<<"FINDING", tid, sub[s].blame, s>>)
 
 \* the driver found the process quiet after its epilogue: the specification must agree that nothing is left to do
 T_End ==
@@ -183,7 +183,7 @@ Silent ==
                         \/ Unsubscribe(s)
      \/ \E c \in Conn : \/ DialUpgraded(c) \/ DialRejected(c) \/ DialAcked(c) \/ DialInitFailed(c) \/ DialCtx(c)
                         \/ PubDone(c) \/ PubMapOk(c) \/ PubMapErr(c)
-                        \/ DispatchDrop(c) \/ ReadClose(c) \/ ReadKilled(c) \/ PingExpire(c) \/ ShutEnd(c) \/ IdleFire(c)
+                        \/ DispatchDrop(c) \/ ReadClose(c) \/ ReadKilled(c) \/ PingExpire(c) \/ PingSpurious(c) \/ ShutEnd(c) \/ IdleFire(c)
   /\ l <= Len(TraceLog)
   /\ UNCHANGED <<l, sid, tid, rets>>
 
